@@ -300,7 +300,7 @@ def gen_hlen():
 # Shapes of the source that are recognised when present.  A fact that cannot be located is emitted as
 # `none` (the tie theorem for it is then vacuous and the evidence says so): the behaviour is still
 # covered by the correspondence check, so a harmless rewrite of these functions raises no alarm here,
-# while a recognisable shape with different content breaks `Props/Tie.lean`.
+# while a recognisable shape with different content breaks `Props/Tie*.lean`.
 
 def fn_body(src, header_re):
     m = re.search(header_re, src)
@@ -465,7 +465,7 @@ def gen_facts(env):
     lines = ["import GseVerif.Model.Encap",
              "/-! GENERATED by tools/gen_lean.py from /repo/src — do not edit.",
              "Shapes of the source recognised on this run (`none` = not recognised; then only the correspondence",
-             "check covers that behaviour).  `Props/Tie.lean` proves that the hand-written model agrees with every",
+             "check covers that behaviour).  `Props/TieWire.lean`, `TieEnc.lean`, `TieMem.lean` prove that the hand-written model agrees with every",
              "fact that was recognised. -/",
              "namespace Gse.Gen", ""]
     for name, ty, val in facts:
